@@ -263,6 +263,28 @@ func runVector(v M) M {
 			got[name] = r
 		}
 		out["got"] = got
+	case "aesseq":
+		// one AES-128-CBC layer value decodes each packet in turn (the specification's encryption of each payload)
+		var k [16]byte
+		copy(k[:], ints(v["key"]))
+		d, err := ipmi.NewAES128CBC(k)
+		if err != nil {
+			out["harnessError"] = err.Error()
+			return out
+		}
+		pkts := v["packets"].([]any)
+		got := make([]any, 0, len(pkts))
+		for _, p := range pkts {
+			b := ev.eval(m(p.(map[string]any)["t"]))
+			got = append(got, decodeInto(d, exact(b)))
+		}
+		// the harness copies the expected payloads through without the terms
+		slim := make([]any, 0, len(pkts))
+		for _, p := range pkts {
+			slim = append(slim, M{"payload": p.(map[string]any)["payload"]})
+		}
+		out["packets"] = slim
+		out["got"] = got
 	default:
 		out["harnessError"] = fmt.Sprint("unknown vector kind ", v["kind"])
 	}
